@@ -52,7 +52,11 @@ def main():
     demos = [f for f in glob.glob(os.path.join(src, "*")) if f.endswith("_test.go") or f.endswith(".go")]
     wt = "/tmp/sv-" + sid
     sh(["git", "-C", "/repo", "worktree", "remove", "--force", wt])
-    rc, out = sh(["git", "-C", "/repo", "worktree", "add", "--detach", wt, "HEAD"])
+    for _ in range(10):
+        rc, out = sh(["git", "-C", "/repo", "worktree", "add", "--detach", wt, "HEAD"])
+        if rc == 0:
+            break
+        time.sleep(2)
     meta = {"id": sid, "property": prop, "confirmed": False, "ran": []}
     try:
         rc, out = sh(["git", "apply", patch], cwd=wt)
